@@ -571,6 +571,10 @@ def od_post(I, outcome, ctx):
     I.oblige('request_response_state_released', z3.Not(z3.Select(I.field(self, '_clients').dom, sock.t)))
     I.oblige('parser_state_released', z3.Not(z3.Select(I.field(self, '_buffers').dom, sock.t)),
              detail='once the connection has disconnected no parser state for it is retained')
+    for t_ in I.st.ghost.get('AUTO_TABLES', []):
+        tv = I.field(self, t_)
+        I.oblige('no_state_retained_for_the_connection.' + t_, z3.Not(z3.Select(tv.arr if isinstance(tv, VSet) else tv.dom, sock.t)),
+                 detail='HTTP.%s (a table created by the constructor) still has an entry for the disconnected socket' % t_)
     o = obj(I, 'other', 'socket')
     I.assume(o.t != sock.t)
     pre = ctx['pre']
@@ -596,8 +600,56 @@ sys.exit(1 if h._buffers else 0)
 
 
 SPECS.append(FucSpec(
-    'C14', HTTP, 'HTTP._on_disconnect', od_setup, od_post, fields=H_FIELDS, cover=['return'], replay=od_replay,
+    'C14', HTTP, 'HTTP._on_disconnect', od_setup, od_post, fields=H_FIELDS, cover=['return'], replay=od_replay, opts={'auto_tables': True},
     clause='_on_disconnect(sock): neither request/response nor parser state for the socket is retained; other connections untouched'))
+
+
+# --- response / stream handlers never create state for a connection that is gone
+# "once the connection has disconnected no parser, request or response state for it is retained" - also when the `response` (or a
+# `stream`) event of a message is handled AFTER the disconnect of its connection (a peer that sends and hangs up at once): these
+# handlers cannot tell, so whatever per-connection entry they create may only be created for a connection that is still known
+# (sock in _clients: _on_disconnect has not run).  Stated for every table of the component: the declared ones and whatever the
+# constructor creates besides.
+def _tables(I, self, heap=None):
+    out = []
+    for t_ in ['_clients', '_buffers'] + list(I.st.ghost.get('AUTO_TABLES', [])):
+        if heap is None:
+            tv = I.field(self, t_)
+            out.append((t_, tv.arr if isinstance(tv, VSet) else tv.dom))
+        else:
+            out.append((t_, z3.Select(heap[t_][0], self.t)))
+    return out
+
+
+def gone_post(I, outcome, ctx):
+    kind, v = outcome
+    if kind == 'raise':
+        return      # what may escape is the business of the C15 contract of the same function
+    cover(I, 'return')
+    self, pre = ctx['args']['self'], ctx['pre']
+    known0 = z3.Select(pre['_clients'][0], self.t)
+    x = obj(I, 'any_socket', 'socket')
+    for (t_, now), (_, before) in zip(_tables(I, self), _tables(I, self, pre)):
+        I.oblige('state_created_only_for_a_connection_still_known.' + t_,
+                 z3.Implies(z3.And(z3.Select(now, x.t), z3.Not(z3.Select(before, x.t))), z3.Select(known0, x.t)),
+                 detail='an entry in HTTP.%s was created for a socket that is not in _clients: if its disconnect was handled before this '
+                        'event, nothing ever removes the entry' % t_)
+
+
+SPECS.append(FucSpec(
+    'C14', HTTP, 'HTTP._on_response', orp_setup, gone_post, fields=H_FIELDS, calls=RESP_CALLS, name='HTTP._on_response[state]',
+    attr_hooks={'res.body': body_hook, 'res.status': lambda I: VInt(I.fz(I.local('res'), '_status'))},
+    loops={0: LoopSpec(inv=[('true', while_skip_inv)], kinds={'data': Bytes})}, cover=['return'], opts={'auto_tables': True},
+    replay=lambda model, ob: open(os.path.join(os.path.dirname(os.path.dirname(os.path.abspath(__file__))), 'replay', 'C14_gone.py')).read(),
+    clause='_on_response creates per-connection state (in any table of the component) only for a connection that is still known: a '
+           'response handled after the disconnect of its connection leaves nothing behind'))
+SPECS.append(FucSpec(
+    'C14', HTTP, 'HTTP._on_stream', os_setup, gone_post, fields=H_FIELDS, calls=STREAM_CALLS, name='HTTP._on_stream[state]',
+    attr_hooks={'res.body': lambda I: BodyIter()},
+    loops={0: LoopSpec(inv=[('data_is_the_piece_fetched_last', while_skip_inv)], kinds={'data': Bytes}, havoc_fields=['G_last_chunk'])},
+    cover=['return'], opts={'auto_tables': True},
+    replay=lambda model, ob: open(os.path.join(os.path.dirname(os.path.dirname(os.path.abspath(__file__))), 'replay', 'C14_gone.py')).read(),
+    clause='_on_stream creates per-connection state only for a connection that is still known'))
 
 
 # --- _on_read: one of {wait, close (TLS hello), one httperror, one redirect, one request}; error paths release the parser
